@@ -105,6 +105,7 @@ type interpreter struct {
 	sched     *gsched
 	depth     int
 	stdout    []value
+	budgetAt  int64
 }
 
 type deferred struct {
@@ -166,6 +167,9 @@ func (fr *frame) runDefer(d *deferred) {
 			r := recover()
 			if ea, isAbort := r.(engineAbort); isAbort {
 				panic(ea)
+			}
+			if sb, isSB := r.(stepBudgetExceeded); isSB {
+				panic(sb)
 			}
 			fr.panicking = true
 			fr.panic = r
@@ -570,6 +574,9 @@ func runFrame(fr *frame) {
 		if ea, isAbort := r.(engineAbort); isAbort {
 			panic(ea)
 		}
+		if sb, isSB := r.(stepBudgetExceeded); isSB {
+			panic(sb)
+		}
 		if re, isRt := r.(runtime.Error); isRt && isEngineBug(re) {
 			panic(engineAbort{kind: abortUnsupported, msg: "engine: " + re.Error() + " in " + fr.fn.String() + "\n" + string(debug.Stack())})
 		}
@@ -599,6 +606,10 @@ func runFrame(fr *frame) {
 			fr.i.steps++
 			if fr.i.steps > fr.i.maxSteps && fr.i.maxSteps > 0 {
 				panic(engineAbort{kind: abortTruncated, msg: "step bound"})
+			}
+			if fr.i.budgetAt > 0 && fr.i.steps > fr.i.budgetAt {
+				fr.i.budgetAt = 0
+				panic(stepBudgetExceeded{})
 			}
 			if visitInstr(fr, instr) == kReturn {
 				return
